@@ -123,6 +123,8 @@ def execute_seq(FallbackClient, n, hits, ops, variant, typed=None):
     caches = None
     fc = None
     for oi, op in enumerate(ops):
+        if oi and fc is not None and variant % 3 == 1:
+            fc.close()          # closing the clients says nothing about their order: the next operation sees the configured one
         part = execute(FallbackClient, n, hits, op, variant + oi, reuse=(fc, caches), typed=variant % 4 >= 2 if typed is None else typed)
         if part.get("retry_typed"):
             return execute_seq(FallbackClient, n, hits, ops, variant, typed=True)
